@@ -21,8 +21,7 @@ What is abstract / fixed:
 * configuration: `CreateEmptyBlocks = true`, `CreateEmptyBlocksInterval = 0`
   (`WaitForTxs() = false`), `SkipTimeoutCommit = false`; the node is a validator with a
   working signer.  `LastCommit` (precommits of the previous height arriving during
-  `NewHeight`) only feeds the content of the next proposal and is not modelled — except that
-  it is nil at the initial height (1), where adding to it panics.
+  `NewHeight`) only feeds the content of the next proposal and is not modelled.
 * time: durations are dropped; the ticker keeps the single pending timeout.
 * ghost field `sent`: every vote this node ever signed, in order (never read by the model).
 -/
@@ -474,10 +473,10 @@ def afterPrecommit (k : NodeCfg) (s : Node) (v : Vote) : Node :=
 def addVote (k : NodeCfg) (s : Node) (v : Vote) (peer : Nat) (sigOk : Bool) : Node :=
   if v.height + 1 = s.height then
     -- A precommit for the previous height while waiting in NewHeight goes to `cs.LastCommit.AddVote`
-    -- (anything else: ErrVoteHeightMismatch).  At the initial height `cs.LastCommit` is nil and
-    -- `(*VoteSet)(nil).AddVote` panics — before any signature or validator check.
-    if s.step = .newHeight ∧ v.type = .precommit ∧ s.height = 1 then { s with halted := true }
-    else s
+    -- (not modelled: it only feeds the next proposal); anything else, and — since the fix
+    -- "addVote ignores a previous-height precommit when there is no last commit" — everything at the
+    -- initial height, where `cs.LastCommit` is nil, is ErrVoteHeightMismatch.  No modelled effect.
+    s
   else if v.height ≠ s.height then s       -- ErrVoteHeightMismatch
   else
     let r := s.votes.addVote v peer sigOk
